@@ -457,3 +457,6 @@ import s2_more as more
 more.register(globals(), {"C07", "C02", "C03", "C09"}, ["map_retry_batches"])
 
 more.register(globals(), {"C07", "C02", "C03", "C09"}, ["fan_catch_paths"])
+
+import s2_found as found
+found.register(globals(), {"C07", "C02", "C03", "C09"}, ["inner_join_failure"])
